@@ -128,6 +128,11 @@ package ice
 //@   site call validateIPString#1 ghost parsedOK := result2 == nil
 //@   ensures a-second-bare-entry-of-a-family-is-rejected: mapping != "" && nparts == 1 && parsedOK && ((v4 && hasIPv4CatchAll) || (!v4 && hasIPv6CatchAll)) ==> result2 != nil
 //@   ensures a-first-bare-entry-is-recorded-for-its-family: mapping != "" && nparts == 1 && parsedOK && !((v4 && hasIPv4CatchAll) || (!v4 && hasIPv6CatchAll)) ==> result2 == nil && result0 == (hasIPv4CatchAll || v4) && result1 == (hasIPv6CatchAll || !v4)
+//@   ghostvar localOK bool = true
+//@   site call validateIPString#2 ghost localOK := result2 == nil
+//@   ensures an-entry-whose-local-half-is-not-an-ip-is-rejected: mapping != "" && nparts == 2 && parsedOK && !localOK ==> result2 != nil
+//@   ensures a-well-formed-pair-is-accepted: mapping != "" && nparts == 2 && parsedOK && localOK ==> result2 == nil
+//@   ensures an-entry-whose-external-half-is-not-an-ip-is-rejected: mapping != "" && (nparts == 1 || nparts == 2) && !parsedOK ==> result2 != nil
 //@   ensures other-entries-leave-the-flags: mapping == "" || nparts != 1 || !parsedOK ==> result0 == hasIPv4CatchAll && result1 == hasIPv6CatchAll
 
 // The documented default of a rule's mode: host rules (an unspecified candidate type means host) replace the
